@@ -355,7 +355,7 @@ def ap_list_text(aps) -> str:
 
 def is_sum_agg(blit) -> bool:
     return (blit.ast_type == ASTType.Literal and blit.atom.ast_type == ASTType.BodyAggregate
-            and blit.atom.function in (AggregateFunction.Sum, AggregateFunction.SumPlus))
+            and blit.atom.function == AggregateFunction.Sum)   # fix 470d5b6: #sum+ aggregates are left alone
 
 
 def hit_text(hit) -> str:
